@@ -38,6 +38,7 @@ type Case struct {
 	// replay: restrict the case to one concrete request
 	OnlyPattern string `json:"only_pattern,omitempty"`
 	OnlyWord    string `json:"only_word,omitempty"`
+	OnlySpell   string `json:"only_spelling,omitempty"`
 }
 
 type Divergence struct {
@@ -139,8 +140,36 @@ func (w *World) ctxFor(c *Case, rt *Route) *Ctx {
 	return cx
 }
 
-// encodeBody renders the JSON body in the body shape of the case.
-func encodeBody(body M, shape string, own string) string {
+func isCaseBody(shape string) bool {
+	return shape == "caseAfter" || shape == "caseBefore" || shape == "caseOnly"
+}
+
+// the body fields that name an index; handlers decode them into struct fields, which encoding/json
+// matches case-insensitively, the last matching key winning
+var indexFields = []string{"index_name", "source_index", "target_index"}
+
+// respell writes a field name in the letter case of the spelling pattern ("Index_Name" = capitalise
+// the words, "INDEX_NAME" = upper case, "index_Name" = capitalise the second word only)
+func respell(field, spelling string) string {
+	words := strings.Split(field, "_")
+	switch spelling {
+	case "INDEX_NAME":
+		return strings.ToUpper(field)
+	case "index_Name":
+		for i := 1; i < len(words); i++ {
+			words[i] = strings.ToUpper(words[i][:1]) + words[i][1:]
+		}
+	default: // Index_Name
+		for i := range words {
+			words[i] = strings.ToUpper(words[i][:1]) + words[i][1:]
+		}
+	}
+	return strings.Join(words, "_")
+}
+
+// encodeBody renders the JSON body in the body shape of the case. In every shape the index the
+// HANDLER ends up with is the one the route builder put into the body.
+func encodeBody(body M, shape string, own string, spelling string) string {
 	if body == nil {
 		if shape == "decoy" {
 			return fmt.Sprintf(`{"index_name":%s}`, jsonStr(own))
@@ -152,6 +181,36 @@ func encodeBody(body M, shape string, own string) string {
 	case "decoy", "dup":
 		// the token's own namespace first; a field of the same name further on wins in encoding/json
 		return fmt.Sprintf(`{"index_name":%s,%s`, jsonStr(own), string(b[1:]))
+	case "caseAfter", "caseBefore", "caseOnly":
+		rest := M{}
+		for k, v := range body {
+			rest[k] = v
+		}
+		var first, last []string
+		for _, f := range indexFields {
+			v, ok := body[f].(string)
+			if !ok {
+				continue
+			}
+			delete(rest, f)
+			variant := respell(f, spelling)
+			switch shape {
+			case "caseAfter": // canonical key = own namespace, the variant with the real index after it
+				first = append(first, jsonStr(f)+":"+jsonStr(own))
+				last = append(last, jsonStr(variant)+":"+jsonStr(v))
+			case "caseBefore": // variant = own namespace first, canonical key with the real index last
+				first = append(first, jsonStr(variant)+":"+jsonStr(own))
+				last = append(last, jsonStr(f)+":"+jsonStr(v))
+			default: // only the variant
+				last = append(last, jsonStr(variant)+":"+jsonStr(v))
+			}
+		}
+		parts := append([]string{}, first...)
+		if rb, _ := json.Marshal(rest); len(rb) > 2 {
+			parts = append(parts, string(rb[1:len(rb)-1]))
+		}
+		parts = append(parts, last...)
+		return "{" + strings.Join(parts, ",") + "}"
 	}
 	return string(b)
 }
@@ -169,6 +228,9 @@ func runCases(p Profile, cases []Case) *CaseResult {
 	}
 	if len(p.Words) == 0 {
 		p.Words = []string{"search"}
+	}
+	if len(p.Spellings) == 0 {
+		p.Spellings = []string{"Index_Name"}
 	}
 	dir := tempDir()
 	defer os.RemoveAll(dir)
@@ -222,7 +284,26 @@ func runCases(p Profile, cases []Case) *CaseResult {
 				res.NoRoute++
 				continue
 			}
+			// case-variant body shapes are instantiated with every spelling of the profile
+			spells := []string{""}
+			if isCaseBody(c.Body) {
+				spells = p.Spellings
+				if c.OnlySpell != "" {
+					spells = []string{c.OnlySpell}
+				}
+			}
+			type pair struct {
+				rt *Route
+				sp string
+			}
+			var pairs []pair
 			for _, rt := range routes {
+				for _, sp := range spells {
+					pairs = append(pairs, pair{rt, sp})
+				}
+			}
+			for _, pr := range pairs {
+				rt, sp := pr.rt, pr.sp
 				tok, ok := w.Toks.get(c.Tok) // tokens are re-minted with every rebuild of the world
 				if !ok {
 					res.Errors = append(res.Errors, "no token for "+tokKey(c.Tok))
@@ -234,7 +315,7 @@ func runCases(p Profile, cases []Case) *CaseResult {
 				}
 				cx := w.ctxFor(c, rt)
 				path, body := rt.Build(cx)
-				rq := Req{Method: rt.Method, Path: path, Body: encodeBody(body, c.Body, w.Own), Auth: bearer(tok), Stream: rt.Stream}
+				rq := Req{Method: rt.Method, Path: path, Body: encodeBody(body, c.Body, w.Own, sp), Auth: bearer(tok), Stream: rt.Stream}
 				status, resp := node.do(rq)
 				progress()
 				if rt.Async && status == 202 {
@@ -266,8 +347,8 @@ func runCases(p Profile, cases []Case) *CaseResult {
 				if changed {
 					res.Changed++
 				}
-				detail := fmt.Sprintf("why=%s class=%s method=%s src=%s tail=%s name=%s body=%s target=%s tok=%s route=%q word=%q status=%d changed=%v leak=%v",
-					c.Why, c.Shape.Class, c.Shape.Method, c.Shape.Src, c.Shape.Tail, c.Name, c.Body, c.Target, tokKey(c.Tok), rt.Pattern, j.v.Word, status, changed, leak)
+				detail := fmt.Sprintf("why=%s class=%s method=%s src=%s tail=%s name=%s body=%s target=%s tok=%s route=%q word=%q spelling=%q status=%d changed=%v leak=%v",
+					c.Why, c.Shape.Class, c.Shape.Method, c.Shape.Src, c.Shape.Tail, c.Name, c.Body, c.Target, tokKey(c.Tok), rt.Pattern, j.v.Word, sp, status, changed, leak)
 				if p.Log {
 					res.Log = append(res.Log, detail+" resp="+firstLine(resp))
 				}
@@ -298,7 +379,7 @@ func runCases(p Profile, cases []Case) *CaseResult {
 						resp = resp[:400]
 					}
 					cc := *c
-					cc.OnlyPattern, cc.OnlyWord = rt.Pattern, j.v.Word
+					cc.OnlyPattern, cc.OnlyWord, cc.OnlySpell = rt.Pattern, j.v.Word, sp
 					res.Divergences = append(res.Divergences, Divergence{ID: c.ID, Kind: kind, Op: map[string]any{"op": c.Shape.Class},
 						Detail: detail, Diff: diff, Req: rq, Status: status, Resp: resp, Case: cc})
 				}
